@@ -72,6 +72,16 @@ theorem get_default_spec (C : Consistent hash eq) {t : Table K V} (hI : Inv C t)
       | none => d () := by
   rw [look_eq_lookB C hI]; exact get3_eq C hI k d
 
+/-- the library helpers `contains(m, k)` and `get(m, k)` (written in xray over `lookup`) -/
+theorem contains_get_spec (C : Consistent hash eq) {t : Table K V} (hI : Inv C t) (k : K) :
+    contains hash eq t k = .ok (has C t k) ∧
+    get2 hash eq t k = match look C t k with
+      | some v => .ok v
+      | none => .error (.err "key not found") := by
+  unfold contains get2 has
+  rw [lookup_spec C hI]
+  exact ⟨rfl, by cases look C t k <;> rfl⟩
+
 /-- `set` (insertion and overwrite): succeeds, keeps the invariant; afterwards every key equivalent to `k` maps
 to `v` and every other key maps to what it mapped to before; `len` grows by one exactly when `k`'s class was absent -/
 theorem set_spec (C : Consistent hash eq) {t : Table K V} (hI : Inv C t) (k : K) (v : V) :
